@@ -111,13 +111,13 @@ def evaluate(case):
     return {"circuit": c, "before": before, "pre": pre, "err": err, "post": post, "after": list(c.ir.statements)}
 
 
-def compare_with_model(ctx, suite, cases, evals, tol=2e-7):
+def compare_with_model(ctx, suite, cases, evals, tol=2e-7, twins=None):
     reqs = [implrun.model_request(case["pass"], case["nq"], ev["pre"]) for case, ev in zip(cases, evals)]
     mres = model.call_many(reqs)
     eqs = []
-    for case, ev, (margin, r) in zip(cases, evals, mres):
+    for case, ev, (margin, r), twin in zip(cases, evals, mres, twins or [False] * len(cases)):
         if model.is_bad(r):
-            ctx.disagree(suite, case, f"model driver: {r}")
+            ctx.disagree(suite, recorded(case, twin), f"model driver: {r}")
             eqs.append(False)
             continue
         merr, mpost = implrun.model_outcome(case["pass"], r)
@@ -127,7 +127,7 @@ def compare_with_model(ctx, suite, cases, evals, tol=2e-7):
         elif mpost is not None:
             d = ser.struct_diff(ev["post"], mpost, tol)
         if d:
-            ctx.disagree(suite, case, d, margin)
+            ctx.disagree(suite, recorded(case, twin), d, margin)
         eqs.append(d is None)
     return eqs
 
@@ -163,23 +163,57 @@ def failure_tags(case, ev):
     return tags
 
 
+def case_builder(case):
+    return lambda: gen.build_circuit(case["nq"], case["nb"], case["specs"])
+
+
 def run_suites(ctx, oracle_fn):
     for name, cases in (("kernel", kernel_cases(ctx)), ("loop", loop_cases(ctx))):
         ctx.suite(name, cases=len(cases))
         for i in range(0, len(cases), 1500):
             chunk = cases[i:i + 1500]
-            evals = []
+            evals, twins = [], []
             for c in chunk:
                 evals.append(evaluate(c))
-                if c["nq"] <= 64:
-                    implrun.history_twin(lambda c=c: gen.build_circuit(c["nq"], c["nb"], c["specs"]), [c["pass"]], ctx.rng, 0.25)
-            eqs = compare_with_model(ctx, name, chunk, evals)
+                twins.append(c["nq"] <= 64 and implrun.history_twin(case_builder(c), [c["pass"]], ctx.rng, 0.25))
+            eqs = compare_with_model(ctx, name, chunk, evals, twins=twins)
 
-            for case, ev, eq in zip(chunk, evals, eqs):
+            for case, ev, eq, twin in zip(chunk, evals, eqs, twins):
                 nontrivial = any(gen.is_gate_spec(s) for s in case["specs"])
                 ctx.seen(case, nontrivial)
                 ctx.bump("dec_" + case["pass"][1])
                 ctx.bump("impl_raised" if ev["err"] else "impl_ok")
-                oracle_fn(ctx, name, case, ev, eq)
+                oracle_fn(ctx, name, recorded(case, twin), ev, eq)
             if chunk:
                 ctx.sample({"case": chunk[0], "impl_error": evals[0]["err"], "post_len": len(evals[0]["post"])})
+
+
+def recorded(case, twin):
+    """the case as it is written to a replay file: with the history the run added to it (its twin was run after it)"""
+    return {**case, "twin": True} if twin else case
+
+
+TWIN_FIRST = ("the case passes on its own: run again after a twin of the same circuit (pass, then qubits relabelled), which "
+              "stands for the twins the run had run for earlier cases")
+
+
+def replay_case(ctx, suite, case, oracle_fn):
+    """one case of the kernel / loop suites again: pass, twin (when the run had run one), model, oracle. A case that
+    passes like this is run once more after a twin of its own, the history a single record cannot carry (twins of
+    EARLIER cases); a library without state shared between circuits cannot tell the difference."""
+    ev, eq = replay_once(ctx, suite, case, oracle_fn)
+    history = "as recorded"
+    if not (ctx.oracle_failures or ctx.disagreements) and case["nq"] <= 64:
+        implrun.run_twin(case_builder(case), [case["pass"]])
+        ev, eq = replay_once(ctx, suite, case, oracle_fn)
+        history = TWIN_FIRST
+    return ev, eq, history
+
+
+def replay_once(ctx, suite, case, oracle_fn):
+    ev = evaluate(case)
+    if case.get("twin"):
+        implrun.run_twin(case_builder(case), [case["pass"]])
+    eqs = compare_with_model(ctx, suite, [case], [ev])
+    oracle_fn(ctx, suite, case, ev, eqs[0])
+    return ev, eqs[0]
